@@ -59,6 +59,9 @@ open_("C12", "D15", "C05/base_commit_sha", ["C03/unsound-note@f.txt:6", "C03/uns
 open_("C13", "D33", "C13/lost@g.txt:2", [],
       "history: feature = [S1 inserts 2 lines at the top of f.txt; S2 inserts a line into g.txt]; upstream adds another file; `git rebase -i main` with the two picks swapped (no conflict) => in wrapper mode every AI line keeps its session, with git-ai installed as git hooks S2's line g.txt:2 is human",
       "c13.interactive_rebase_reorder_in_hooks_mode", ["rebase_interactive"], affects=[])
+open_("C06", "D9", "C06/stdout@--html-path status", [],
+      "command line: `git --html-path status` (likewise --man-path / --info-path followed by a subcommand) => plain git prints the documentation path and exits 0; through the proxy the query option is dropped and `status` runs (different stdout). The pinned suite asserts the current behaviour (git_cli_arg_parsing::meta_html_path_then_real_command_meta_is_dropped_current_behavior), so the repair is not an unedited-suite-compatible fix",
+      "c06.html_path_followed_by_command", ["tmpl:--html-path status"], affects=["C18"])
 # ---------------------------------------------------------------- C02
 open_("C02", "D20", "C03/unsound-note@f.txt:12", [],
       "history: feature branch = [person replaces 2 lines of f.txt by 1; AI session S1 modifies line 5 of f.txt]; upstream inserts 2 AI lines after line 1 and then 5 human lines after line 5 of f.txt; `git rebase main` (no conflict) => the rewritten AI commit's note lists line 12 (text written by a person) as S1: the full rebase replay mis-places attributions when upstream changed the same file",
